@@ -149,6 +149,24 @@ let handle (line : string) : string =
   | ["g"; s] -> "c=" ^ c_sig !xcache (str_of_hex s)
   | ["FR"; h] -> (match parse_frame (str_of_hex h) with None -> "~" | Some f -> show_frame f)
   | ["TH"; h] -> (match parse_throwable (str_of_hex h) with None -> "~" | Some (c, m) -> hex_of_str c ^ ":" ^ tok_of_ostr m)
+  | "U" :: _ -> "u=" ^ hex_of_str (mapping_uuid st.bytes)
+  | "Z" :: mx :: script ->
+    let mx = n_of_dec (String.sub mx 4 (String.length mx - 4)) in
+    let parse_resp t =
+      match String.split_on_char ':' t with
+      | [i; "I"] -> (n_of_dec i, Interrupted)
+      | [i; "F"] -> (n_of_dec i, Fail)
+      | [i; r] when String.length r > 1 && r.[0] = 'S' -> (n_of_dec i, Short (n_of_dec (String.sub r 1 (String.length r - 1))))
+      | _ -> failwith ("bad sink token " ^ t) in
+    let sk = { sk_max = mx; sk_script = List.map parse_resp script } in
+    let cs = chunks (write_struct (Lazy.force st.rs)) in
+    let (r, fin) = run_sink sk cs in
+    let canon = List.concat cs in
+    let rec is_prefix a b = match a, b with [], _ -> true | x :: a', y :: b' -> x = y && is_prefix a' b' | _, [] -> false in
+    "r=" ^ (match r with WOk -> "ok" | WErrZero -> "zero" | WErrFail -> "fail" | WOutOfFuel -> "OUTOFFUEL") ^
+    ";n=" ^ string_of_int (List.length fin.ss_acc) ^ ";calls=" ^ dec_of_n fin.ss_calls ^
+    ";pfx=" ^ b2s (is_prefix fin.ss_acc canon) ^ ";full=" ^ b2s (fin.ss_acc = canon) ^
+    ";h=" ^ hex_of_str fin.ss_acc
   | "A" :: toks ->
     (* a trace AST: e:<cls>:<msg|~>  f:<cls>:<meth>:<file>:<line>  c (start of the cause) *)
     let parse_node toks =
